@@ -7,6 +7,7 @@ from .terms import RF, lift, Unsupported
 import itertools
 from .guards import Ctx, A, Not, And, Or, atoms_of, ev, facts_from, show_f, literals, consistent
 from .summ import (Summarizer, State, Sym, ListV, DictV, BoolV, WILD, DONTCARE, vkey, show_value, to_num, Leaf)
+from .guards import show_f
 from .laws import all_atoms, assignments, select, subst_value, values_equal, show_alpha
 
 OPAQUE_TAGS = {"comp", "lambda", "fstr", "star"}
@@ -292,7 +293,7 @@ def compare_rows(code_leaves, spec_leaves_, code_val, spec_val, rep, rule, const
                 rows += 1
                 if s.kind == "return" and s.value is DONTCARE:
                     continue
-                if c.kind == "raise" or s.kind == "raise":
+                if c.kind in ("raise", "break") or s.kind == "raise":
                     if c.kind != s.kind:
                         bad.setdefault(("exit", c.kind, s.kind), alpha)
                     continue
@@ -313,7 +314,7 @@ def compare_rows(code_leaves, spec_leaves_, code_val, spec_val, rep, rule, const
         raise AnalysisError("%s: no joint guard row" % what)
     for key, info in bad.items():
         if key[0] == "exit":
-            rep.violation(rule, construct, where, "%s: exits by %s where the reference %ss" % (what, key[1], key[2]), "exit %s/%s" % key[1:])
+            rep.violation(rule, construct, where, "%s: the loop body exits by '%s' where the reference ends by '%s' (a break abandons the remaining iterations)" % (what, key[1], key[2]), "exit %s/%s" % key[1:])
             continue
         alpha, x, y = info
         label = key[0]
@@ -333,28 +334,9 @@ def dispatch_of(leaf, method, what):
 def c01_wiring(model, rep):
     r = roles(model)
     rep.extra["roles"] = r
-    rel = model.rel("system")
-    n_inst = 0
-    # ---- R5 child current sum
-    fn, loop, cl, env = body_leaves(model, r, r["CHILD_I"], lambda l: isinstance(l, ast.For) and iter_is_role(l, r["CHILDS"]), "child-current loop")
-    params = [a.arg for a in fn.args.args][1:]
-    if len(params) != 4:
-        raise AnalysisError("child-current method has %d parameters" % len(params))
-    acc = acc_name(loop, env)
-    sargs = {"self": Sym(("name", "self")), "node": env[params[0]], "i": env[params[1]], "v": env[params[2]], "state": env[params[3]],
-             "c": Sym(("name", loop.target.id)), "io": env[acc]}
-    sl = spec_leaves(model, r, "child_curr__body", sargs)
-    rows, ok = compare_rows(cl, sl, lambda lf: {"sum": lf.env[acc]}, lambda lf: {"sum": lf.value}, rep, "R5",
-                            "system.System.%s" % r["CHILD_I"], "%s:%d" % (rel, loop.lineno), "child-current sum")
-    rep.instance("R5", "system.System.%s loop body" % r["CHILD_I"], "%s:%d" % (rel, loop.lineno), ok, "%d leaves, %d rows" % (len(cl), rows))
-    # the accumulator must start at zero and be what is returned
-    check_acc_init(model, rep, fn, loop, acc, rel)
-    n_inst += 1
-    n_inst += pass_wiring(model, rep, r, "R4")
-    # ---- R6 row assembly
-    rows_ok = row_assembly(model, rep, r, "R6", ["Vin (V)", "Vout (V)", "Iin (A)", "Iout (A)", "Parent", "Component", "Type"])
-    n_inst += 1
-    rep.floor("R4-R6", n_inst, 4)
+    rep.attempt(child_current_rule, model, rep, r, "R5")
+    rep.attempt(pass_wiring, model, rep, r, "R4")
+    rep.attempt(row_assembly, model, rep, r, "R6", ["Vin (V)", "Vout (V)", "Iin (A)", "Iout (A)", "Parent", "Component", "Type"])
 
 
 def pass_wiring(model, rep, r, rule):
@@ -399,7 +381,7 @@ def acc_name(loop, env):
     return names.pop()
 
 
-def check_acc_init(model, rep, fn, loop, acc, rel):
+def check_acc_init(model, rep, fn, loop, acc, rel, rule="R5"):
     env_val = None
     for s in fn.body:
         if s is loop:
@@ -416,10 +398,10 @@ def check_acc_init(model, rep, fn, loop, acc, rel):
     rets = [n for n in ast.walk(fn) if isinstance(n, ast.Return)]
     ok2 = len(rets) == 1 and isinstance(rets[0].value, ast.Name) and rets[0].value.id == acc
     if not ok:
-        rep.violation("R5", "system.System.%s" % fn.name, "%s:%d" % (rel, fn.lineno), "current sum does not start at 0", "acc init")
+        rep.violation(rule, "system.System.%s" % fn.name, "%s:%d" % (rel, fn.lineno), "current sum does not start at 0", "acc init")
     if not ok2:
-        rep.violation("R5", "system.System.%s" % fn.name, "%s:%d" % (rel, fn.lineno), "the summed current is not what is returned", "acc return")
-    rep.instance("R5", "system.System.%s accumulator" % fn.name, "%s:%d" % (rel, fn.lineno), ok and ok2)
+        rep.violation(rule, "system.System.%s" % fn.name, "%s:%d" % (rel, fn.lineno), "the summed current is not what is returned", "acc return")
+    rep.instance(rule, "system.System.%s accumulator" % fn.name, "%s:%d" % (rel, fn.lineno), ok and ok2)
 
 
 # ------------------------------------------------------------------------------------------------ solve() row body
@@ -456,6 +438,12 @@ def solve_anchors(model, r):
 
 
 _ROW_CACHE = {}
+_ROW_PRE = {}
+
+
+def row_pre_env(model, r):
+    row_summary(model, r)
+    return _ROW_PRE[id(model)]
 
 
 def row_summary(model, r):
@@ -476,6 +464,7 @@ def row_summary(model, r):
     for v in (an["V"], an["I"], an["STATE"]):
         st.env[v] = Sym(("name", {an["V"]: "v", an["I"]: "i", an["STATE"]: "state"}[v]))
     st.env[an["phase_loop"].target.id] = Sym(("name", "ph"))
+    _ROW_PRE[key] = dict(st.env)
     try:
         leaves = sm.summarize_block(row.body, st.env)
     except Unsupported as e:
@@ -877,3 +866,355 @@ def phase_list_rule(model, rep, r, an, labels=("R4", "R5")):
         rep.violation(labels[1], "system.System.solve", where, "an unknown phase is not rejected with ValueError before the phase loop", "unknown phase")
     rep.instance(labels[0], "system.System.solve phase list", where, ok_list, "%d prologue paths" % nrows)
     rep.instance(labels[1], "system.System.solve unknown phase -> ValueError", where, ok_raise)
+
+
+# ------------------------------------------------------------------------------------------------ C05 helpers
+def child_current_rule(model, rep, r, rule):
+    rel = model.rel("system")
+    fn, loop, cl, env = body_leaves(model, r, r["CHILD_I"], lambda l: isinstance(l, ast.For) and iter_is_role(l, r["CHILDS"]), "child-current loop")
+    params = [a.arg for a in fn.args.args][1:]
+    acc = acc_name(loop, env)
+    sargs = {"self": Sym(("name", "self")), "node": env[params[0]], "i": env[params[1]], "v": env[params[2]], "state": env[params[3]],
+             "c": Sym(("name", loop.target.id)), "io": env[acc]}
+    sl = spec_leaves(model, r, "child_curr__body", sargs)
+    rows, ok = compare_rows(cl, sl, lambda lf: {"sum": lf.env[acc]}, lambda lf: {"sum": lf.value}, rep, rule,
+                            "system.System.%s" % r["CHILD_I"], "%s:%d" % (rel, loop.lineno), "child-current sum")
+    rep.instance(rule, "system.System.%s loop body" % r["CHILD_I"], "%s:%d" % (rel, loop.lineno), ok, "%d leaves, %d rows" % (len(cl), rows))
+    check_acc_init(model, rep, fn, loop, acc, rel, rule)
+
+
+def registry_of(node):
+    """self._g.attrs["<r>"] -> r"""
+    if isinstance(node, ast.Subscript) and isinstance(node.slice, ast.Constant) and isinstance(node.slice.value, str) \
+            and isinstance(node.value, ast.Attribute) and node.value.attr == "attrs" and isinstance(node.value.value, ast.Attribute) \
+            and node.value.value.attr == "_g":
+        return node.slice.value
+    return None
+
+
+def is_registry_sub(node, reg):
+    """self._g.attrs[reg][<key>]"""
+    return isinstance(node, ast.Subscript) and registry_of(node.value) == reg
+
+
+def order_registry(model):
+    """registry stored to with a node-index key and a list value in add_comp (DESIGN appendix A: 'order registry')"""
+    add = model.own_method("System", "add_comp")
+    cands = set()
+    for s in ast.walk(add):
+        if isinstance(s, ast.Assign) and isinstance(s.targets[0], ast.Subscript):
+            reg = registry_of(s.targets[0].value)
+            if reg and isinstance(s.targets[0].slice, ast.Name) and isinstance(s.value, ast.Name):
+                # key is the result of add_child / add_node
+                key = s.targets[0].slice.id
+                for a in ast.walk(add):
+                    if isinstance(a, ast.Assign) and is_name(a.targets[0], key) and isinstance(a.value, ast.Call) and isinstance(a.value.func, ast.Attribute) \
+                            and a.value.func.attr in ("add_child", "add_node"):
+                        cands.add(reg)
+    if len(cands) != 1:
+        raise AnalysisError("order registry not identified in add_comp (%s)" % sorted(cands))
+    return cands.pop()
+
+
+def list_provenance(fn, name):
+    """name = []; for x in SRC: name += [f(x)]   ->  (SRC name, per-item expr)   |   name = SRC  -> (SRC, None)"""
+    init = None
+    aug = []
+    for n in ast.walk(fn):
+        if isinstance(n, ast.Assign) and any(is_name(t, name) for t in n.targets):
+            init = n
+        if isinstance(n, ast.AugAssign) and is_name(n.target, name):
+            aug.append(n)
+        if isinstance(n, ast.Call) and isinstance(n.func, ast.Attribute) and n.func.attr == "append" and is_name(n.func.value, name):
+            aug.append(n)
+    if init is None:
+        return None
+    inits = [n for n in ast.walk(fn) if isinstance(n, ast.Assign) and any(is_name(t, name) for t in n.targets)]
+    if not aug and all(isinstance(n.value, ast.Name) or (isinstance(n.value, ast.List) and len(n.value.elts) == 1 and isinstance(n.value.elts[0], ast.Name)) for n in inits):
+        return name, None   # the name is itself the (copied) source list
+    if isinstance(init.value, ast.List) and not init.value.elts and len(aug) == 1:
+        a = aug[0]
+        lp = getattr(a, "_parent", None)
+        while lp is not None and not isinstance(lp, ast.For):
+            lp = getattr(lp, "_parent", None)
+        if lp is None or not isinstance(lp.iter, ast.Name) or not isinstance(lp.target, ast.Name):
+            return None
+        item = a.value.elts[0] if isinstance(a, ast.AugAssign) and isinstance(a.value, ast.List) and len(a.value.elts) == 1 else (a.args[0] if isinstance(a, ast.Call) else None)
+        if item is None:
+            return None
+        uses = {x.id for x in ast.walk(item) if isinstance(x, ast.Name)}
+        if lp.target.id not in uses:
+            return None
+        return lp.iter.id, ast.unparse(item)
+    return None
+
+
+def simple_provenance(fn, name):
+    """set of source texts a name is assigned from"""
+    out = set()
+    for n in ast.walk(fn):
+        if isinstance(n, ast.Assign) and any(is_name(t, name) for t in n.targets):
+            out.add(ast.unparse(n.value))
+    return out
+
+
+def parents_reader_rule(model, rep, gp, reg, rule):
+    rel = model.rel("system")
+    ok = False
+    reads = [n for n in ast.walk(gp) if isinstance(n, ast.Subscript) and registry_of(n.value) == reg and isinstance(n.ctx, ast.Load)]
+    if not reads:
+        rep.violation(rule, "system.System._get_parents", "%s:%d" % (rel, gp.lineno), "the stored input order is not consulted when the parents of a multi-input node are listed", "order not read")
+        return False
+    # accepted: ind[i] = <reg>[n][i]  inside  for i in range(len(ind))   |   ind = list(<reg>[n])
+    for s in ast.walk(gp):
+        if isinstance(s, ast.Assign) and isinstance(s.targets[0], ast.Subscript) and isinstance(s.value, ast.Subscript):
+            t, v = s.targets[0], s.value
+            if isinstance(v.value, ast.Subscript) and registry_of(v.value.value) == reg and ast.unparse(t.slice) == ast.unparse(v.slice):
+                ok = True
+        if isinstance(s, ast.Assign) and isinstance(s.targets[0], ast.Subscript) and isinstance(s.value, ast.Call) and len(s.value.args) == 1 \
+                and isinstance(s.value.args[0], ast.Subscript):
+            # ind[i] = f(<reg>[n][i]) : an element-wise resolver keeps the position
+            t, v = s.targets[0], s.value.args[0]
+            if isinstance(v.value, ast.Subscript) and registry_of(v.value.value) == reg and ast.unparse(t.slice) == ast.unparse(v.slice):
+                ok = True
+        if isinstance(s, ast.Assign) and isinstance(s.value, (ast.Subscript, ast.Call)):
+            v = s.value
+            if isinstance(v, ast.Call) and isinstance(v.func, ast.Name) and v.func.id == "list" and len(v.args) == 1:
+                v = v.args[0]
+            if isinstance(v, ast.Subscript) and registry_of(v.value) == reg and isinstance(s.targets[0], ast.Name):
+                ok = True
+    for n in ast.walk(gp):
+        if isinstance(n, ast.Call) and isinstance(n.func, ast.Name) and n.func.id in ("sorted", "set", "reversed"):
+            if any(registry_of(x.value) == reg for x in ast.walk(n) if isinstance(x, ast.Subscript)):
+                ok = False
+    if not ok:
+        rep.violation(rule, "system.System._get_parents", "%s:%d" % (rel, gp.lineno), "the stored input order is not read back position by position", "order reader")
+    return ok
+
+
+def find_domain_rule(model, rep, r, rule):
+    """_find_domain: SOURCE -> own name; PMUX -> root of the first input with non-zero voltage; else the argument"""
+    from .idioms import first_match, const_int
+    rel = model.rel("system")
+    fn = model.own_method("System", "_find_domain")
+    if fn is None:
+        raise AnalysisError("System._find_domain not found")
+    where = "%s:%d" % (rel, fn.lineno)
+    params = [a.arg for a in fn.args.args][1:]
+    if len(params) != 3:
+        raise AnalysisError("_find_domain has %d parameters" % len(params))
+    N, DOM, VV = params
+    # branches by type
+    branches = {}
+    tail = None
+    top = [s for s in fn.body if not (isinstance(s, ast.Expr) and isinstance(s.value, ast.Constant))]
+    if not top or not isinstance(top[0], ast.If):
+        raise AnalysisError("_find_domain does not start with a type dispatch")
+    cur = top[0]
+    while True:
+        t = ast.unparse(cur.test)
+        typ = None
+        for name in ("SOURCE", "PMUX"):
+            if ("'%s'" % name in t or "_ComponentTypes.%s" % name in t) and "self._g[%s]" % N in t:
+                typ = name
+        if typ is None:
+            raise AnalysisError("_find_domain: unrecognised branch test %s" % t)
+        branches[typ] = cur.body
+        if len(cur.orelse) == 1 and isinstance(cur.orelse[0], ast.If):
+            cur = cur.orelse[0]
+        else:
+            if cur.orelse:
+                raise AnalysisError("_find_domain: unexpected else branch")
+            break
+    ok = True
+    src = branches.get("SOURCE")
+    if not (src and len(src) == 1 and isinstance(src[0], ast.Return) and ast.unparse(src[0].value).replace('"', "'") == "self._g[%s]._params['name']" % N):
+        ok = False
+        rep.violation(rule, "system.System._find_domain", where, "a source is not its own domain", "source branch")
+    rest = top[1:]
+    if not (len(rest) == 1 and isinstance(rest[0], ast.Return) and is_name(rest[0].value, DOM)):
+        ok = False
+        rep.violation(rule, "system.System._find_domain", where, "a component that is neither source nor mux does not inherit the domain it is given", "default branch")
+    mux = branches.get("PMUX")
+    if not mux:
+        raise AnalysisError("_find_domain has no PMUX branch")
+    fm = first_match(mux, "_find_domain PMUX branch")
+    if not fm.first:
+        ok = False
+        rep.violation(rule, "system.System._find_domain", where, "the mux is attributed to the LAST input with non-zero voltage, not the first", "mux scan selects last")
+    if const_int(fm.default) != 0:
+        ok = False
+        rep.violation(rule, "system.System._find_domain", where, "with no live input the mux is not attributed to its first input", "mux default")
+    # condition: |V[PARENTS[n][i]]| != 0
+    hooks = SysHooks(model, r)
+    sm = Summarizer(hooks, Ctx())
+    st = State({"self": Sym(("name", "self")), N: Sym(("name", "n")), VV: Sym(("name", "v")), DOM: Sym(("name", "dom"))})
+    for s in mux:
+        if s is fm.loop:
+            break
+        if isinstance(s, ast.Assign):
+            for s2, status in sm.stmt(s, st):
+                st = s2
+    st.env[fm.var] = Sym(("name", "k"))
+    got = sm.cond(fm.cond, st)
+    ref = ast.parse("abs(v[self.%s[n][k]]) != 0.0" % r["PARENTS"], mode="eval").body
+    want = sm.cond(ref, State({"self": Sym(("name", "self")), "n": Sym(("name", "n")), "v": Sym(("name", "v")), "k": Sym(("name", "k"))}))
+    if got != want:
+        ok = False
+        rep.violation(rule, "system.System._find_domain", where, "the mux is attributed by the test %s, expected %s" % (show_f(got), show_f(want)), "mux live test " + show_f(got))
+    # root of the selected input
+    after = mux[mux.index(fm.loop) + 1:]
+    txt = " ".join(ast.unparse(s) for s in after).replace('"', "'")
+    pvar = None
+    for s in mux:
+        if isinstance(s, ast.Assign) and ast.unparse(s.value) == "self.%s[%s]" % (r["PARENTS"], N) and isinstance(s.targets[0], ast.Name):
+            pvar = s.targets[0].id
+    sel = "%s[%s]" % (pvar, fm.result) if pvar else None
+    good = sel is not None and ("rx.ancestors(self._g, %s)" % sel) in txt and ("self._g[%s]._params['name']" % sel) in txt and "in_degree" in txt
+    if not good:
+        ok = False
+        rep.violation(rule, "system.System._find_domain", where, "the mux's domain is not the root source above its selected input", "mux root walk")
+    rep.instance(rule, "system.System._find_domain", where, ok, "scan form %s" % fm.form)
+    return ok
+
+
+ORDER_BREAKERS = {"sorted", "set", "reversed", "frozenset"}
+
+
+def order_breakers(model, rep, reg, rule):
+    """every store into the order registry: the stored value (and the names it is built from, within the function)
+    must not pass through sorted / set / reversed / .sort() / .reverse()"""
+    rel = model.rel("system")
+    found = False
+    for mod, qn, fn in model.all_functions():
+        if mod != "system":
+            continue
+        stores = [s for s in ast.walk(fn) if isinstance(s, ast.Assign) and any(is_registry_sub(t, reg) for t in s.targets)]
+        if not stores:
+            continue
+        tracked = set()
+        for s in stores:
+            tracked |= {x.id for x in ast.walk(s.value) if isinstance(x, ast.Name)}
+            for n in ast.walk(s.value):
+                if isinstance(n, ast.Call) and isinstance(n.func, ast.Name) and n.func.id in ORDER_BREAKERS:
+                    found = True
+                    rep.violation(rule, "system.%s" % qn, "%s:%d" % (rel, n.lineno), "the input order stored in '%s' passes through %s()" % (reg, n.func.id), "order breaker %s in %s" % (n.func.id, qn))
+        # one step of provenance: names assigned from an order breaker applied to a tracked name
+        for _ in range(3):
+            for a in ast.walk(fn):
+                if isinstance(a, ast.Assign) and any(isinstance(t, ast.Name) and t.id in tracked for t in a.targets):
+                    tracked |= {x.id for x in ast.walk(a.value) if isinstance(x, ast.Name)}
+        for a in ast.walk(fn):
+            if isinstance(a, ast.Assign) and any(isinstance(t, ast.Name) and t.id in tracked for t in a.targets):
+                for n in ast.walk(a.value):
+                    if isinstance(n, ast.Call) and isinstance(n.func, ast.Name) and n.func.id in ORDER_BREAKERS:
+                        found = True
+                        rep.violation(rule, "system.%s" % qn, "%s:%d" % (rel, n.lineno), "the input order stored in '%s' passes through %s()" % (reg, n.func.id), "order breaker %s in %s" % (n.func.id, qn))
+            if isinstance(a, ast.Call) and isinstance(a.func, ast.Attribute) and a.func.attr in ("sort", "reverse") and isinstance(a.func.value, ast.Name) and a.func.value.id in tracked:
+                found = True
+                rep.violation(rule, "system.%s" % qn, "%s:%d" % (rel, a.lineno), "the input order stored in '%s' is re-ordered by .%s()" % (reg, a.func.attr), "order breaker %s in %s" % (a.func.attr, qn))
+    return found
+
+
+# ------------------------------------------------------------------------------------------------ object state
+MUTATORS = {"append", "extend", "update", "pop", "clear", "remove", "insert", "setdefault", "add", "discard", "popitem", "sort", "reverse"}
+
+
+def self_state_key(node):
+    """self.X -> 'X' ; self._g.attrs["k"] -> 'attrs[k]' ; else None"""
+    if isinstance(node, ast.Attribute) and is_name(node.value, "self"):
+        return node.attr
+    reg = registry_of(node)
+    if reg is not None and isinstance(node.value.value.value, ast.Name) and node.value.value.value.id == "self":
+        return "attrs[%s]" % reg
+    return None
+
+
+def method_state_effects(fn):
+    """(unconditional wholesale assignments, conditional assignments, in-place mutations, reads) of self-attached state"""
+    uncond, cond, mut, reads = {}, {}, {}, {}
+    top = set(id(s) for s in fn.body)
+    for n in ast.walk(fn):
+        if isinstance(n, (ast.Assign, ast.AugAssign, ast.AnnAssign)):
+            tgts = n.targets if isinstance(n, ast.Assign) else [n.target]
+            flat = []
+            for t in tgts:
+                flat += list(t.elts) if isinstance(t, (ast.Tuple, ast.List)) else [t]
+            for t in flat:
+                k = self_state_key(t)
+                if k is not None:
+                    (uncond if id(n) in top and isinstance(n, ast.Assign) else cond).setdefault(k, n.lineno)
+                elif isinstance(t, ast.Subscript):
+                    base = t.value
+                    while isinstance(base, ast.Subscript) and self_state_key(base) is None:
+                        base = base.value
+                    k = self_state_key(base)
+                    if k is not None:
+                        mut.setdefault(k, n.lineno)
+        elif isinstance(n, ast.Delete):
+            for t in n.targets:
+                for x in ast.walk(t):
+                    k = self_state_key(x)
+                    if k is not None:
+                        mut.setdefault(k, n.lineno)
+        elif isinstance(n, ast.Call) and isinstance(n.func, ast.Attribute) and n.func.attr in MUTATORS:
+            k = self_state_key(n.func.value)
+            if k is not None:
+                mut.setdefault(k, n.lineno)
+    for n in ast.walk(fn):
+        k = self_state_key(n)
+        if k is not None and isinstance(getattr(n, "ctx", None), ast.Load):
+            reads.setdefault(k, n.lineno)
+    return uncond, cond, mut, reads
+
+
+def self_calls(node):
+    return {c.func.attr for c in ast.walk(node) if isinstance(c, ast.Call) and isinstance(c.func, ast.Attribute) and is_name(c.func.value, "self")}
+
+
+def closure_from(model, nodes):
+    todo = set()
+    for n in nodes:
+        todo |= self_calls(n)
+    seen = set()
+    while todo:
+        m = todo.pop()
+        if m in seen:
+            continue
+        fn = model.own_method("System", m)
+        if fn is None:
+            continue
+        seen.add(m)
+        todo |= self_calls(fn) - seen
+    return seen
+
+
+def object_state_rule(model, rep, r, rule):
+    """phase independence through object state: any self-attached state that is mutated in place, or assigned under a
+    condition, by code reachable from the phase loop of solve() must be rebuilt unconditionally inside that loop; otherwise
+    one phase iteration (or one solve) sees what the previous one left behind"""
+    rel = model.rel("system")
+    an = solve_anchors(model, r)
+    ploop = an["phase_loop"]
+    methods = closure_from(model, ploop.body)
+    U, Cn, M, Rd = {}, {}, {}, {}
+    for m in sorted(methods):
+        fn = model.own_method("System", m)
+        u, c, mu, rd = method_state_effects(fn)
+        for d, src in ((U, u), (Cn, c), (M, mu)):
+            for k, line in src.items():
+                d.setdefault(k, (m, line))
+    # effects written directly in the loop body
+    ok = True
+    for k, (m, line) in sorted(list(M.items()) + list(Cn.items())):
+        if k in U:
+            continue
+        ok = False
+        rep.violation(rule, "system.System.%s" % m, "%s:%d" % (rel, line),
+                      "object state '%s' is modified in place / conditionally by code reachable from the phase loop of solve() but is not rebuilt unconditionally inside it: a later phase (or a later solve) sees the earlier one's value" % k,
+                      "carried object state " + k)
+    rep.instance(rule, "system.System.solve phase loop: object state rebuilt per phase", "%s:%d" % (rel, ploop.lineno), ok,
+                 "reachable methods: %d; rebuilt: %s; mutated: %s" % (len(methods), sorted(U), sorted(M)))
+    if not methods:
+        raise AnalysisError("phase loop reaches no method")
+    return ok
